@@ -10,8 +10,8 @@ import (
 )
 
 type wres struct {
-	done        bool
-	err         error
+	done         bool
+	err          error
 	closedAtCall bool
 }
 
